@@ -320,3 +320,49 @@ func canonEvents(e string) string {
 	sortStrings(p)
 	return strings.Join(p, ";")
 }
+
+// ReconcileLateEvents: records are delivered asynchronously, so one may reach the collector after
+// the next request has already been answered. A record the model expects at step i but that the
+// implementation shows (unexpectedly) at one of the next three steps is moved back to step i.
+func ReconcileLateEvents(steps []*Step) {
+	for i, s := range steps {
+		if s.Impl != s.Model {
+			continue
+		}
+		want := map[string]int{}
+		for _, e := range strings.Split(s.Events, ";") {
+			if e = strings.TrimSpace(e); e != "" {
+				want[e]++
+			}
+		}
+		for _, e := range s.Obs.Events {
+			want[e]--
+		}
+		for e, n := range want {
+			for ; n > 0; n-- {
+				for j := i + 1; j < len(steps) && j <= i+3; j++ {
+					later := steps[j]
+					expect := 0
+					for _, x := range strings.Split(later.Events, ";") {
+						if strings.TrimSpace(x) == e {
+							expect++
+						}
+					}
+					have, idx := 0, -1
+					for k, x := range later.Obs.Events {
+						if x == e {
+							have++
+							idx = k
+						}
+					}
+					if have > expect && idx >= 0 {
+						later.Obs.Events = append(later.Obs.Events[:idx:idx], later.Obs.Events[idx+1:]...)
+						s.Obs.Events = append(s.Obs.Events, e)
+						sortStrings(s.Obs.Events)
+						break
+					}
+				}
+			}
+		}
+	}
+}
